@@ -4,6 +4,7 @@ import itertools
 from hypothesis import strategies as st
 
 from vlib import gen_inputs as gi
+from vlib import greybox
 from vlib import ref_events as rv
 from vlib import ref_marks
 from vlib.runner import Arm, Eval, Failure
@@ -404,6 +405,9 @@ def arms(tier):
         Arm("streamed", eval_streamed, streamed_cases, quick=2500, thorough=100000),
         Arm("encoded", eval_encoded, encoded_cases, quick=3000, thorough=120000),
         Arm("short-strings", make_eval("short"), enum=enum_short, exhaustive=True),
+        # coverage-guided search (vlib/greybox.py) under the same token / event / position oracle
+        Arm("greybox", make_eval("greybox"), enum=lambda s, ns, tier: greybox.campaign(
+            s, ns, tier, PROPERTY, "greybox", quick=12000, thorough=1000000)),
         Arm("stub-tokens", eval_stub, enum=enum_stub, exhaustive=True),
         Arm("stub-random", eval_stub, lambda: st.lists(st.sampled_from(STUB_KINDS), min_size=5, max_size=14).map(tuple), quick=20000, thorough=1000000),
     ]
